@@ -351,7 +351,7 @@ func init() {
 		}
 		n := 8000
 		if thorough() {
-			n = 100000
+			n = 500000
 		}
 		var jobs []func()
 		for i := 0; i < n; i++ {
